@@ -21,7 +21,8 @@ RULE = ("(a) every instruction word of the stated set (quick: 16 opcodes x 9 bou
         "self-modifying stores biased into the program area, BRZ targets biased to 0/self/max_pc/max_pc+1/4095). Lock-step "
         "after every step(): accu, written memory cells, executed address, instruction/cycle/branch counters, done-ness, pc "
         "(mod 4096, constant offset measured at load). non-trivial = a store into the program area that is executed later, "
-        "a taken BRZ, a pc wrap, or an opcode >= 13 executed; distinct = hash(case)")
+        "a taken BRZ, a pc wrap, or an opcode >= 13 executed; distinct = hash(case) "
+        "A share of the programs is loaded into a USED simulation object (it assembled and executed another program before).")
 ASSUMPTIONS = [
     "address 0 holds what the assembler placed (the first instruction is latched at load time); all other cells arbitrary",
     "program length is set by assembling one line and setting max_pc (shortcut); a fraction of cases assembles all lines",
@@ -164,7 +165,8 @@ def program_case(draw):
             words[str(a)] = draw(word)
     accu = draw(st.one_of(st.sampled_from(ACC_B), st.integers(0, 0xFFFF)))
     return {"first": first, "len": n, "words": words, "accu": accu, "max": draw(st.sampled_from([60, 300])),
-            "via_text": n <= 24 and draw(st.integers(0, 7)) == 0, "drive": draw(st.sampled_from(["step", "step", "single", "halves"]))}
+            "via_text": n <= 24 and draw(st.integers(0, 7)) == 0, "drive": draw(st.sampled_from(["step", "step", "single", "halves"])),
+            "reuse": draw(st.sampled_from([0, 0, 0, 3, 8]))}
 
 
 def corpus():
